@@ -1415,9 +1415,15 @@ def _concatenate_Hamiltonian(
             # unique
             pulse_pos = [bisect.bisect(pulse_idx, hashed_opers.index(op)) for op in oper]
             identifier_pos = [concat_hashed_opers.index(op) for op in oper]
-            for i, p in zip(identifier_pos, pulse_pos):
+            for i, p, op in zip(identifier_pos, pulse_pos, oper):
                 concat_identifiers[i] = concat_identifiers[i] + f'_{p}'
-                pulse_identifier_mapping[p].update({identifier_str: concat_identifiers[i]})
+                # The operator might appear in further pulses than the first
+                # one, p, whose mapping also needs to be updated
+                for ind, hashed_oper in enumerate(hashed_opers):
+                    if hashed_oper == op:
+                        pulse_identifier_mapping[bisect.bisect(pulse_idx, ind)].update(
+                            {identifier_str: concat_identifiers[i]}
+                        )
 
     # Sort everything by the identifiers
     sort_idx = np.argsort(concat_identifiers)
